@@ -1,7 +1,7 @@
 (* C16 — Cert exchange serves exact store slices; pollers store only verified certs.
    server_limit / server_guard / server_end are GENERATED from certexchange/server.go. *)
 From Coq Require Import ZArith List Bool.
-From F3 Require Import GoInt ServerGen Exchange ExchangeProofs.
+From F3 Require Import GoInt ListX ServerGen Exchange ExchangeProofs.
 Import ListNotations.
 Open Scope Z_scope.
 
